@@ -57,6 +57,37 @@ def _convertCFFToCFF2(cff, otFont):
         cs, fdIndex = charStrings.getItemAndSelector(glyphName)
         cs.decompile()
 
+    def getLocalSubrs(fdIndex):
+        return (
+            localSubrs[fdIndex]
+            if fdIndex is not None
+            else (
+                getattr(topDict.Private, "Subrs", [])
+                if hasattr(topDict, "Private")
+                else []
+            )
+        )
+
+    # Find the glyphs that have an explicit width, while the subroutines are
+    # still intact: the first stack-clearing operator, which reveals the width,
+    # may be an endchar inside a subroutine.
+    # Intentionally use custom type for nominalWidthX, such that any
+    # CharString that has an explicit width encoded will throw back to us.
+    nominalWidthXError = _NominalWidthUsedError()
+    glyphsWithWidth = set()
+    for glyphName in charStrings.keys():
+        cs, fdIndex = charStrings.getItemAndSelector(glyphName)
+        extractor = T2WidthExtractor(
+            getLocalSubrs(fdIndex),
+            globalSubrs,
+            nominalWidthXError,
+            0,
+        )
+        try:
+            extractor.execute(cs)
+        except _NominalWidthUsedError:
+            glyphsWithWidth.add(glyphName)
+
     # Clean up subroutines first
     for subrs in [globalSubrs] + localSubrs:
         for subr in subrs:
@@ -74,32 +105,15 @@ def _convertCFFToCFF2(cff, otFont):
 
     # Clean up glyph charstrings
     removeUnusedSubrs = False
-    nominalWidthXError = _NominalWidthUsedError()
     for glyphName in charStrings.keys():
         cs, fdIndex = charStrings.getItemAndSelector(glyphName)
         program = cs.program
 
-        thisLocalSubrs = (
-            localSubrs[fdIndex]
-            if fdIndex is not None
-            else (
-                getattr(topDict.Private, "Subrs", [])
-                if hasattr(topDict, "Private")
-                else []
-            )
-        )
+        thisLocalSubrs = getLocalSubrs(fdIndex)
 
-        # Intentionally use custom type for nominalWidthX, such that any
-        # CharString that has an explicit width encoded will throw back to us.
-        extractor = T2WidthExtractor(
-            thisLocalSubrs,
-            globalSubrs,
-            nominalWidthXError,
-            0,
-        )
-        try:
-            extractor.execute(cs)
-        except _NominalWidthUsedError:
+        if glyphName in glyphsWithWidth:
+            # (only for the subroutine biases)
+            extractor = T2WidthExtractor(thisLocalSubrs, globalSubrs, 0, 0)
             # Program has explicit width. We want to drop it, but can't
             # just pop the first number since it may be a subroutine call.
             # Instead, when seeing that, we embed the subroutine and recurse.
